@@ -137,7 +137,7 @@ func cmdCheck(args []string) int {
 			for k, v := range h.Params[*tier] {
 				params[k] = v
 			}
-			cfg := Config{Workers: *workers, MaxDepth: 400, MaxSteps: 5_000_000, MaxPaths: 2_000_000, MaxConcretize: 64,
+			cfg := Config{Workers: *workers, MaxDepth: 400, MaxSteps: 5_000_000, MaxPaths: 2_000_000, MaxConcretize: 300,
 				FeasTimeoutMs: 10_000, IncTimeoutMs: 1000, AssertTimeoutMs: 120_000, Params: params, Solver: SolverZ3New, Witnesses: 6, StopOnViolation: true, Progress: *verbose, WallBudget: 20 * time.Minute}
 			if *tier == "thorough" {
 				cfg.Witnesses = 12
